@@ -94,6 +94,94 @@ func init() {
 			return nil
 		})
 	})
+	// HSCAN / SSCAN: what one call may return (a complete iteration when it
+	// starts at 0 and ends at 0)
+	collScan := func(hash bool) func(m *Model, s *Sess, a []string, _ bool) Expect {
+		return func(m *Model, s *Sess, a []string, _ bool) Expect {
+			pattern := "*"
+			for i := 3; i+1 < len(a); i += 2 {
+				switch upper(a[i]) {
+				case "MATCH":
+					pattern = a[i+1]
+				case "COUNT":
+				default:
+					return Expect{Mode: exAny}
+				}
+			}
+			if len(a)%2 == 0 {
+				return Expect{Mode: exAny}
+			}
+			if _, ok := parseInt(a[2]); !ok {
+				return Expect{Mode: exAny}
+			}
+			o := m.get(s, a[1])
+			want := map[string]string{}
+			if o != nil {
+				if hash && o.T != tHash || !hash && o.T != tSet {
+					return eWrongType()
+				}
+				if hash {
+					for f, v := range o.H {
+						if globMatch(pattern, f) {
+							want[f] = v
+						}
+					}
+				} else {
+					for x := range o.Z {
+						if globMatch(pattern, x) {
+							want[x] = ""
+						}
+					}
+				}
+			}
+			start := a[2]
+			var hf map[string]bool
+			if o != nil {
+				hf = o.HF
+			}
+			return ePred("scan result consistent with the collection", func(got Value) error {
+				if got.IsErr() {
+					return nil // argument errors are not this model's business
+				}
+				if got.K != KArray || len(got.A) != 2 || got.A[1].K != KArray {
+					return errf("expected [cursor, [elements]]")
+				}
+				els := got.A[1].A
+				seen := map[string]bool{}
+				step := 1
+				if hash {
+					step = 2
+					if len(els)%2 != 0 {
+						return errf("odd number of elements")
+					}
+				}
+				for i := 0; i+step-1 < len(els); i += step {
+					v, ok := want[els[i].S]
+					if !ok {
+						return errf("returned %q, which is not an element matching MATCH %q", els[i].S, pattern)
+					}
+					if hash && !hf[els[i].S] && els[i+1].S != v {
+						return errf("field %q returned with value %q, expected %q", els[i].S, clipS(els[i+1].S, 40), clipS(v, 40))
+					}
+					seen[els[i].S] = true
+				}
+				next := got.A[0].S
+				if got.A[0].K == KInt {
+					next = strconv.FormatInt(got.A[0].I, 10)
+				}
+				if start == "0" && next == "0" {
+					for k := range want {
+						if !seen[k] {
+							return errf("complete iteration in one call did not return %q", k)
+						}
+					}
+				}
+				return nil
+			})
+		}
+	}
+	reg("hscan", -3, false, collScan(true))
+	reg("sscan", -3, false, collScan(false))
 	reg("rename", 3, true, func(m *Model, s *Sess, a []string, _ bool) Expect {
 		o := m.get(s, a[1])
 		if o == nil {
